@@ -588,6 +588,7 @@ pub(crate) fn gen_send(wd: &World, rng: &mut Rng) -> Option<Action> {
 		amts: vec![amt],
 		fee_delta_msat: 0,
 		cltv_delta_adj: 0,
+		flaw: 0,
 	}))
 }
 
